@@ -433,6 +433,32 @@ GENERIC_ALIAS = {
 }
 
 
+# one type under its two predeclared spellings (byte/uint8, rune/int32): the supplier must be found (C02: the declared
+# supplier is used, not a parameter)
+BASIC_SPELLINGS = {
+    "k.go": 'package main\n\nimport "github.com/mazrean/kessoku"\n\ntype Hasher struct{ Seed byte }\ntype Codec struct {\n\tH   *Hasher\n\tSep rune\n}\n\nvar seeds int\n\nfunc NewSeed() uint8             { seeds++; return 42 }\nfunc NewHasher(seed byte) *Hasher { return &Hasher{Seed: seed} }\nfunc NewCodec(h *Hasher, sep rune) *Codec { return &Codec{H: h, Sep: sep} }\n\nvar _ = kessoku.Inject[*Codec]("InitCodec", kessoku.Provide(NewSeed), kessoku.Provide(NewHasher), kessoku.Value(int32(58)), kessoku.Provide(NewCodec))\n\nfunc main() {\n\tvar f func() *Codec = InitCodec\n\tc := f()\n\tif c.H.Seed != 42 || c.Sep != 58 || seeds != 1 {\n\t\tpanic("wrong result")\n\t}\n}\n',
+}
+
+
+# a provider result nobody needs whose type comes from a package nothing else in the output mentions, in an injector
+# with goroutines (variables predeclared): its import must not reach the output
+UNUSED_RESULT_PKG = {
+    "ext/e.go": 'package ext\n\ntype Token struct{ V string }\n',
+    "prov.go": 'package main\n\nimport "vscratch/unused_result_pkg/ext"\n\ntype Config struct{ Name string }\ntype DB struct{ cfg *Config }\ntype Cache struct{}\ntype App struct {\n\tdb    *DB\n\tcache *Cache\n}\n\nfunc NewConfig() *Config { return &Config{Name: "x"} }\nfunc NewDB(c *Config) (*DB, ext.Token) { return &DB{cfg: c}, ext.Token{V: "t"} }\nfunc NewCache(c *Config) *Cache        { return &Cache{} }\nfunc NewApp(db *DB, cache *Cache) *App { return &App{db: db, cache: cache} }\n',
+    "k.go": 'package main\n\nimport (\n\t"context"\n\n\t"github.com/mazrean/kessoku"\n)\n\nvar _ = kessoku.Inject[*App]("InitApp", kessoku.Provide(NewConfig), kessoku.Async(kessoku.Provide(NewDB)), kessoku.Async(kessoku.Provide(NewCache)), kessoku.Provide(NewApp))\n\nfunc main() {\n\tif a := InitApp(context.Background()); a == nil || a.db.cfg.Name != "x" {\n\t\tpanic("wrong result")\n\t}\n}\n',
+}
+
+
+# two sources in one invocation: an injector declared in the OTHER file is a package-level function of the package; a
+# variable of this file's injector must not take its name (the copied literal calls it)
+INJECTOR_NAMES_2 = {
+    "types.go": 'package main\n\ntype Logger struct{ prefix string }\n\ntype App struct {\n\tlog      *Logger\n\tfallback *Logger\n}\n\nfunc NewLogger() *Logger { return &Logger{prefix: "app"} }\n',
+    "a.go": 'package main\n\nimport "github.com/mazrean/kessoku"\n\nvar _ = kessoku.Inject[*App](\n\t"InitApp",\n\tkessoku.Provide(NewLogger),\n\tkessoku.Provide(func(l *Logger) *App { return &App{log: l, fallback: logger()} }),\n)\n',
+    "b.go": 'package main\n\nimport "github.com/mazrean/kessoku"\n\nvar _ = kessoku.Inject[*Logger](\n\t"logger",\n\tkessoku.Provide(NewLogger),\n)\n',
+    "main.go": 'package main\n\nfunc main() {\n\tapp := InitApp()\n\tif app.log == nil || app.fallback == nil || app.log == app.fallback {\n\t\tpanic("wrong result")\n\t}\n}\n',
+}
+
+
 # a renamed import whose real name is used for a LOCAL variable inside a copied function literal (repaired: the import
 # keeps the name the file gives it)
 ALIAS_CAPTURE = {
@@ -586,6 +612,10 @@ def _stage(seed, tier, key="N-x"):
     pkgs.append(("print_alike", PRINT_ALIKE, ["k.go"], None, dict(kind="types that print alike", run=True, expect_params={"k_band.go": {"InitF": ["struct { x int }"]}})))
     pkgs.append(("alias_capture2", ALIAS_CAPTURE2, ["k.go"], None, dict(kind="naming: a renamed import, another file importing it plainly, and a local of a copied literal", run=True)))
     pkgs.append(("pkg_level_ctx", PKG_LEVEL_CTX, ["k.go"], None, dict(kind="naming: a package-level ctx next to an async injector, cancelled call", run=True)))
+    pkgs.append(("basic_spellings", BASIC_SPELLINGS, ["k.go"], None, dict(kind="byte/uint8 and rune/int32: one type, two spellings", run=True, value_check=True, expect_params={"k_band.go": {"InitCodec": []}})))
+    pkgs.append(("unused_result_pkg", UNUSED_RESULT_PKG, ["k.go"], None, dict(kind="imports: an unneeded result whose type comes from an otherwise unmentioned package", run=True)))
+    pkgs.append(("injector_names_2", INJECTOR_NAMES_2, ["a.go", "b.go"], None, dict(kind="naming: an injector declared in another file of the invocation", run=True)))
+    pkgs.append(("injector_names_2r", INJECTOR_NAMES_2, ["b.go", "a.go"], None, dict(kind="naming: an injector declared in another file of the invocation (other order)", run=True)))
     pkgs.append(("xset", XSET, ["k.go"], "KF-C10-1", dict(kind="known finding reproducer (Set of another package)", signature="no vet signature: the file compiles",
                                                        expect_params={"k_band.go": {"InitB": []}}, known_params={"k_band.go": {"InitB": ["*prov.A"]}})))
     pkgs.append(("known_KF_C04_24", UNEXPORTED_TYPE, ["k.go"], "KF-C04-24", dict(kind="known finding reproducer", signature=r"(not exported by package lib|cannot refer to unexported|unexported)")))
